@@ -199,6 +199,15 @@ CHECKS['C11'] = {
     'trusted': [T_VERUS, T_R1, T_KANI] + T_BLK,
     'explanation': 'unit blk + kani negotiate_never_panics',
 }
+CHECKS['C10'] = {
+    'level': 'proof', 'units': ['blk', 'msz'],
+    'kani': [_k('negotiate_within_budget', 'all client blocks, overheads, payload sizes and every budget M with overhead+28 <= M <= 1280: chosen size is a power of two 16..1024, <= the client size, size + overhead + 12 <= M; the client size is kept (with its block number) when it fits with 32 bytes to spare; unfragmented only if payload + overhead + 12 < M', timeout=900)],
+    'technique': 'Kani complete harness for the block-size arithmetic + Verus: overhead measurement against the encoder contract, glue contracts tying the served block / Block1 reply to the negotiation result, lemma bounding the growth of the encoding by the Block option and marker',
+    'level_text': 'Proof: (1) Kani, complete over all inputs in the property budget range, proves the arithmetic contract neg_post of negotiate_block_size_if_necessary; (2) Verus proves compute_message_size_hack returns the exact encoded size without payload plus the payload length (msz, against the encoder contract of C04); (3) Verus proves, on the verbatim glue, that the block served by intercept_response and the Block1 value acknowledged by maybe_handle_request_block1 are exactly that negotiation result and that a reply left unfragmented satisfies payload + overhead + 12 < M (blk); (4) lemma: one extra Block option with a value of <= 3 bytes plus the payload marker grow the encoding by <= 12 bytes, so the fragmented reply encodes within overhead + 12 + size <= M (msz: theorem_c10_fragment_fits).',
+    'level_note': _BLK_NOTE + ' The Kani-proved contract and its Verus transcription neg_post are kept in sync by hand (kani/src/negotiate.rs vs units/blk.py). The statement about the client next upload block is the arithmetic one (size + request overhead + 12 <= M).',
+    'trusted': [T_VERUS, T_R1, T_KANI] + T_BLK,
+    'explanation': 'units blk + msz, kani negotiate_within_budget',
+}
 CHECKS['C12'] = {
     'level': 'proof', 'units': ['blk'], 'kani': [],
     'technique': 'Verus frame conditions on the verbatim entry points: only the state under the request key is touched; replies keep message id, token and token length of the current request',
